@@ -73,6 +73,9 @@ pre_reset(void *epv, void *arg)
 	const br_ec_impl *dflt = br_ssl_engine_get_ec(ep->eng);
 	int id;
 
+	/* a context in its second life already runs on the restricted copy made for its first one */
+	if (dflt == &sd->ec) dflt = br_ec_get_default();
+
 	for (id = 1; id <= 6; id ++) {
 		if (!((sd->hashes >> id) & 1)) br_ssl_engine_set_hash(ep->eng, id, NULL);
 	}
@@ -101,6 +104,8 @@ pre_reset(void *epv, void *arg)
 	} else {
 		if (sd->has_sni && strcmp(sd->sni, "localhost") != 0 && strcmp(sd->sni, "www.example.com") != 0) {
 			ep->xw->vtable = &nb_vtable;
+		} else {
+			ep->xw->vtable = &tpx_vtable;
 		}
 	}
 }
@@ -579,6 +584,32 @@ run_pair(long long seed, long idx, int kind, side *C, side *S, vf_rng *r)
 	side_to_cfg(S, 1, &sc, r);
 	tp_pair_init(&p, (uint64_t)seed, (uint64_t)idx, (int)vf_below(r, 5));
 	p.c.tx_key = vf_u64(r); p.s.tx_key = vf_u64(r);
+	if ((idx / NSLOTS) % 3 == 1) {
+		/* a previous life: both contexts have already served one connection with another server name (longer),
+		   other ALPN names, the full version range and other flags. The outcome judged below is a function of the
+		   configuration in force now, not of that history */
+		static char old_name[80];
+		static const char *old_alpn[2] = { "previous-protocol-name-zz", "h2" };
+		tp_cfg c0 = cc, s0 = sc;
+		size_t q, nl = 40 + vf_below(r, 39);
+		for (q = 0; q < nl; q ++) old_name[q] = "abcdefghijklmnopqrstuvwxyz0123456789.-"[vf_below(r, 38)];
+		old_name[nl] = 0;
+		c0.sni = old_name;
+		c0.vmin = s0.vmin = 0x0301; c0.vmax = s0.vmax = 0x0303;
+		c0.flags ^= BR_OPT_NO_RENEGOTIATION; s0.flags ^= BR_OPT_ENFORCE_SERVER_PREFERENCES | BR_OPT_NO_RENEGOTIATION;
+		if (cc.alpn != NULL) { c0.alpn = old_alpn; c0.nalpn = 2; }
+		if (sc.alpn != NULL) { s0.alpn = old_alpn; s0.nalpn = 2; }
+		vf_bytes(r, c0.seed, 32); vf_bytes(r, s0.seed, 32);
+		if (tp_ep_start(&p.c, &c0) && tp_ep_start(&p.s, &s0)) {
+			if (tp_handshake(&p, 2000000)) {
+				vf_stat("previous_life_handshakes", 1);
+				if (vf_below(r, 2)) tp_run_close(&p, (int)vf_below(r, 3), 100000);
+			}
+		}
+		p.c2s.rd = p.c2s.wr = 0; p.s2c.rd = p.s2c.wr = 0;
+		cc.reuse_ctx = 1; sc.reuse_ctx = 1;
+		vf_stat("cases_with_previous_life", 1);
+	}
 	tm_pair_attach(&pm, &p);
 	pm.m.rm.on_hs = on_hs;
 	pm.m.rec_hook = rec_hook;
